@@ -286,6 +286,10 @@ impl Sim {
                             let (m, cv) = &*l.release;
                             *m.lock().unwrap() = true;
                             cv.notify_all();
+                            // the connection's thread now leaves start_replication and, for a connection a
+                            // primary dialled, removes the member entry of that name (whatever it is by
+                            // then): let it do so now, not at some later step
+                            std::thread::sleep(Duration::from_millis(25));
                         }
                         break;
                     }
